@@ -208,9 +208,13 @@ def expected_extend(kind: str, pre_pts: np.ndarray | None, newMin: float, newMax
     if pre_pts is None:
         return expected_newtable(kind, newMin, newMax, nMin + nMax), None
     rmin, rmax = float(pre_pts[0]), float(pre_pts[-1])
-    left = np.array([newMin + i * (rmin - newMin) / nMin for i in range(nMin)]) if (newMin < rmin and nMin > 0) else np.array([])
+    # A side whose requested extension is of rounding size (e.g. back to a nominal end after a 15-digit write/read round
+    # trip) cannot receive new, well separated abscissae: the only outcome compatible with "abscissae stay strictly
+    # increasing and distinct" is that this side is left as it is.
+    tiny = 1e-10 * max(1.0, abs(rmin), abs(rmax))
+    left = np.array([newMin + i * (rmin - newMin) / nMin for i in range(nMin)]) if (rmin - newMin > tiny and nMin > 0) else np.array([])
     opt = None
-    if newMax > rmax and nMax > 0:
+    if newMax - rmax > tiny and nMax > 0:
         sp = (newMax - rmax) / nMax
         right = np.array([rmax + i * sp for i in range(1, nMax + 1)])
         o = rmax + (nMax + 1) * sp
